@@ -138,8 +138,8 @@ pub fn run(ctx: &Ctx) {
     ctx.set_rule("random: (hash, root level W{1,2,4,8} x H{2,5,10,15} within a cost budget, 0..7 further levels over all W and heights 2..25, seed from {random, all-zero, all-0xff, single bit}) -> SigningKey bytes must equal counter||nibble-packed parameters||0xff padding||seed and VerifyingKey bytes must equal u32(L)||lmstype||otstype||I||T[1] with I, one-time keys and root from an independent transcription of the hash-sigs derivation. Non-trivial = anything but (SHA-256/32, 2x W1/H5); distinct by serialized case. Child-level derivation is pinned through C07 (signed child public keys).");
     ctx.assume("no hash-sigs binary is available offline: compatibility rests on the model being an independent transcription of the hash-sigs layout, anchored on the RFC 8554 vectors for the LMS part");
     ctx.assume("for hashes other than SHA-256/32 the model pins the current construction");
-    let budget = ctx.tier.pick(1_200_000u64, 30_000_000u64);
-    let cases = ctx.tier.pick(2_400u32, 40_000u32);
+    let budget = ctx.tier.pick(1_200_000u64, 12_000_000u64);
+    let cases = ctx.tier.pick(2_400u32, 14_000u32);
     ctx.random("keys", &|| key_case(budget), cases, Opts { shrink_iters: 100, ..Opts::default() }, check_keys);
     // grid: every hash x every W x {H2,H5} as single-level and as root of an 8-level list
     let mut grid: Vec<KeyCase> = Vec::new();
